@@ -32,10 +32,12 @@ IsWrite(e) == e.method = "POST" /\ e.path \in {"/events", "/events/bulk"}
    after a health check (if enabled) found it alive, or after discovery gave it a new topology *)
 Converges ==
   /\ leader # "" /\ mode[leader] = "ok" /\ told \in Hosts
-  /\ \/ (~pdead \/ cfg.health) /\ mode[told] = "ok"                                   \* direct, or the believed leader redirects
-     (* discovery needs an endpoint the client has not marked dead: guaranteed only if health checks
-        or the revive option can clear the marks (the client's per-endpoint marks are not tracked here) *)
-     \/ (sdead \/ mode[told] \in {"down", "e5xx"}) /\ cfg.discovery /\ (cfg.health \/ cfg.revive) /\ \E h \in Hosts : mode[h] = "ok"
+  /\ (~pdead \/ cfg.health) /\ mode[told] = "ok"        \* direct, or the believed leader redirects
+  (* No expectation is derived from discovery: whether the client runs it depends on its per-endpoint
+     dead marks (primary object vs list objects, silent revival when every endpoint is marked), which
+     this trace specification does not track - three over-claims of an earlier version were found by
+     the thorough tier with new seeds (DESIGN 7). Those marks are specified in ClientTopology.tla /
+     Client.tla and validated per transition (Trace_ClientTopology). *)
 
 StepClient == /\ Ev.a = "client"
               /\ told' = Ev.primary /\ pdead' = FALSE /\ sdead' = FALSE /\ leader' = Ev.leader /\ mode' = [h \in Hosts |-> "ok"]
